@@ -77,6 +77,9 @@ def execute(ctx, c, r1, r2, opts):
             argv += ["-p", outs[1]]
     if c.get("redirect", "none") != "none":
         argv = ["-m", "14", "--too-short-output", "ts" + c["redirect"]] + argv
+    if c.get("untrim"):
+        argv = ["--untrimmed-output", "un1" + c["outname"] + osfx] + \
+            (["--untrimmed-paired-output", "un2" + c["outname"] + osfx] if c["outlayout"] == "two" else []) + argv
     if c["cores"] > 1:
         argv = ["-j", str(c["cores"]), "--buffer-size", "600"] + argv
     argv += names
@@ -139,18 +142,20 @@ def observe_all(ctx, cfgs, r1, r2):
     opts = OPTS
     # reference: plain FASTQ, one core, plain output
     refs = {}
-    for paired, redir in ((False, "none"), (True, "none"), (False, ".fastq")):
+    def popts(paired, untrim):
+        return opts + ((["-U", "1"] if untrim else ["-A", AD[:8], "-U", "1"]) if paired else [])
+    for paired, redir, untrim in ((False, "none", False), (True, "none", False), (False, ".fastq", False), (True, "none", True)):
         c0 = dict(infmt="fastq", incont="plain", inlayout="two" if paired else "single", outname=".fastq", outcont="plain",
-                  outlayout="two" if paired else "single", fastaflag=False, cores=1, redirect=redir)
-        o = execute(ctx, c0, r1, r2, opts + (["-A", AD[:8], "-U", "1"] if paired else []))
+                  outlayout="two" if paired else "single", fastaflag=False, cores=1, redirect=redir, untrim=untrim)
+        o = execute(ctx, c0, r1, r2, popts(paired, untrim))
         if o["exit"] != 0:
             raise RuntimeError(f"reference run failed: {o}")
-        refs[(paired, redir != "none")] = (o["out1"], o["out2"])
+        refs[(paired, redir != "none", untrim)] = (o["out1"], o["out2"])
     ev = []
     for c in cfgs:
         paired = c["inlayout"] != "single"
-        o = execute(ctx, c, r1, r2, opts + (["-A", AD[:8], "-U", "1"] if paired else []))
-        rk = (paired, c["redirect"] != "none")
+        o = execute(ctx, c, r1, r2, popts(paired, bool(c.get("untrim"))))
+        rk = (paired, c["redirect"] != "none", bool(c.get("untrim")))
         ev.append(dict(id=len(ev), cfg=c, ref1=refs[rk][0], ref2=refs[rk][1], exit=o["exit"], formats=o["formats"],
                        redirect_format=o.get("redirect_format", "none"),
                        out1=o["out1"], out2=o["out2"], argv=o["argv"], note=o.get("note", "")))
@@ -180,7 +185,9 @@ def run(ctx):
     rng = ctx.rng
     if ctx.quick:
         with_redirect = [c for c in cfgs if c["redirect"] != "none"]
-        cfgs = rng.sample([c for c in cfgs if c["redirect"] == "none"], 230) + rng.sample(with_redirect, min(60, len(with_redirect)))
+        with_untrim = [c for c in cfgs if c["untrim"]]
+        cfgs = rng.sample([c for c in cfgs if c["redirect"] == "none" and not c["untrim"]], 220) + \
+            rng.sample(with_redirect, min(60, len(with_redirect))) + rng.sample(with_untrim, min(50, len(with_untrim)))
     r1, r2 = make_reads(rng, 7)
     ev = observe_all(ctx, cfgs, r1, r2)
     judge(ctx, ev, r1, r2)
